@@ -358,6 +358,35 @@ P["C16"] = {"property": "C16", "level": "model_checking", "units":
     [c16_seq("C16.bounded.free_all_N2", 5, C16_MODES[4][2], 2, "thorough", 7200),
      c16_seq("C16.bounded.free_bad_N2", 3, C16_MODES[2][2], 2, "thorough", 7200)]}
 
+# =============================== C12 (provider switching) ==================
+OPS_C = "libjwt/jwt-crypto-ops.c"
+OPS_PRE = ['struct jwt_crypto_ops jwt_openssl_ops = { .name = "openssl", .provider = JWT_CRYPTO_OPS_OPENSSL };',
+           'struct jwt_crypto_ops jwt_gnutls_ops = { .name = "gnutls", .provider = JWT_CRYPTO_OPS_GNUTLS };', VS]
+def ops_unit(name, fn, contract, body, replace=()):
+    return U("C12." + name, "%s (libjwt/jwt-crypto-ops.c)" % fn, OPS_C, "contracts/jwt_crypto_ops_c.h", body, "%s/%s" % (fn, contract),
+             replace=replace, stubs=["stubs/libc.c", "stubs/ghost.c", "stubs/env.c"], defines=["VERIF_NO_JWT_OPS_DEF"], pre=OPS_PRE,
+             unwindset="jwt_set_crypto_ops.0:4,jwt_set_crypto_ops_t.0:4", expect=[contract + "\\.postcondition\\.2"], timeout=300)
+P["C12"] = {"property": "C12", "level": "proof", "units": [
+    ops_unit("jwt_set_crypto_ops", "jwt_set_crypto_ops", "contract_C12_jwt_set_crypto_ops",
+             "size_t n; __CPROVER_assume(n < 0x10000000); char *s = VS(n); jwt_set_crypto_ops(s);",
+             replace=["jwt_strcmp/contract_exact1_jwt_strcmp"]),
+    ops_unit("jwt_set_crypto_ops_t", "jwt_set_crypto_ops_t", "contract_C12_jwt_set_crypto_ops_t",
+             "jwt_crypto_provider_t p; jwt_set_crypto_ops_t(p);"),
+    ops_unit("jwt_init", "jwt_init", "contract_C12_jwt_init",
+             "size_t n; __CPROVER_assume(n < 0x10000000); g_env_value = nondet_bool() ? NULL : VS(n); jwt_init();",
+             replace=["jwt_set_crypto_ops/contract_C12_jwt_set_crypto_ops"]),
+    U("C12.jwt_strcmp_exact1", "jwt_strcmp (libjwt/jwt-memory.c), first argument short", "libjwt/jwt-memory.c", "contracts/jwt_memory_c.h",
+      "size_t n1, n2; __CPROVER_assume(n2 < 0x10000000 && n1 < 8); char *a = VS(n1), *b = VS(n2); jwt_strcmp(a, b);",
+      "jwt_strcmp/contract_exact1_jwt_strcmp", stubs=["stubs/libc.c"], pre=[VS],
+      loops={"jwt_strcmp": [{"loop_id": 0, "vars": ["i", "ret", "len1", "len2", "len_max", "str1", "str2"],
+                             "assigns": "i, ret",
+                             "invariants": ["0 <= i && i <= len_max", "len_max == (len1 >= len2 ? len1 : len2)", "len1 <= 7",
+                                            "(ret == 0) == PREFIX_EQ(i)"],
+                             "decreases": "len_max - i"}]},
+      loop_macro_headers=["contracts/loopmacros_strcmp.h"],
+      expect=["contract_exact1_jwt_strcmp\\.postcondition\\.1", "jwt_strcmp\\.loop_invariant_step"]),
+]}
+
 # ============================ parsing units =================================
 VERIFY_JSON_STUBS = LIBC + ["stubs/time.c", "stubs/jansson.c", "stubs/alloc.c"]
 def parse_units(prop, clauses_name):
